@@ -43,8 +43,9 @@ def run(tier, rep):
             report(rep, "threaded_schedules_d2", out, 2, JUDGE)
         st = run_family(pool, jit_jobs, JUDGE, chunk=1)
         report(rep, "threaded_jit_step_io_callback", st, 0, JUDGE, family=True)
-        from vf.props import c06_compiled
+    from vf.props import c06_compiled
 
+    with Pool(maxtasks=4) as pool:
         c06_compiled.run(tier, rep, pool)
     rep.section("family", dyadic_family_size=fam_size, members_run=len(fam_jobs), drivers=["reset/step", "run", "reset/step with overrides", "second episode reset from the carried-over graph state"])
     for n, j in fam_jobs[:2]:
